@@ -671,7 +671,7 @@ impl<'gc> Tgt<'gc> for Swh<'gc> {
         e.n > 0
     }
     fn tokens(e: &Exp) -> usize {
-        e.n
+        e.n + 1 // the header value and the elements
     }
     fn drops_per_value(e: &Exp) -> usize {
         e.n
